@@ -1005,6 +1005,10 @@ impl<const M: usize> Sim<M> {
                 // the old block is untouched and still owned by the caller
                 self.keep_block(addr, lv);
                 rep.bump(&format!("c12.{}.err", name));
+                if let Some(before) = self.last_obs.take() {
+                    self.check_unchanged_after_failure(rep, &before, name);
+                    self.last_obs = Some(before);
+                }
                 if grow && new_align <= M && new_align <= old_align && round_up(new_size, M) <= cap_before {
                     let p = if self.limit.is_some() { "C07" } else { "C09" };
                     rep.violate(p, format!("{}/fitting-request-failed/{}", p, name), self.cur.clone());
